@@ -119,14 +119,30 @@ def build(cfg, log):
     from black_it.schedulers.rl.rl_scheduler import RLScheduler
 
     install()
+    vt.reset_registry()
     samplers = make_samplers(cfg["samplers"])
     n = len(samplers) + (0 if any(type(s) is HaltonSampler for s in samplers) else 1)
     env = MABCalibrationEnv(n)
     agent = make_agent(cfg["agent"], n, log)
     sched = RLScheduler(samplers, agent=agent, env=env, random_state=cfg.get("sched_seed", 0))
-    if not isinstance(sched._in_queue, vt.VQueue) or not isinstance(sched._out_queue, vt.VQueue):  # noqa: SLF001
-        raise HarnessBroken("the scheduler's queues are not virtual queues: seam defeated by a refactor")
+    if len(vt.VQueue.registry) < 2:
+        raise HarnessBroken("the scheduler/environment did not create virtual queues: seam defeated by a refactor")
     return sched, agent, env, samplers
+
+
+def queue_sizes():
+    """(messages in the first-created queue, messages in all others): the environment creates the action queue first."""
+    qs = vt.VQueue.registry
+    return (len(qs[0].items) if qs else 0, sum(len(q.items) for q in qs[1:]))
+
+
+def halton_index(sched):
+    from black_it.samplers.halton import HaltonSampler
+
+    for i, s in enumerate(sched.samplers):
+        if type(s) is HaltonSampler:
+            return i
+    return -1
 
 
 def _sampler_index(sched, s):
@@ -146,8 +162,8 @@ def run_protocol(cfg, prefix, mode="sync", horizon=6000):
     tracer = vt.make_line_tracer(["black_it/schedulers"]) if mode == "line" else None
 
     def snap(ctl, kind, tid):
-        return digest((tuple(map(repr, sched._in_queue.items)), tuple(map(repr, sched._out_queue.items)),  # noqa: SLF001
-                       sched.__dict__.get("_vf_shared__stopped"), sched._best_loss, env.__dict__.get("_vf_shared__curr_best_loss"),  # noqa: SLF001
+        return digest((tuple(tuple(map(repr, q.items)) for q in vt.VQueue.registry),
+                       sched.__dict__.get("_vf_shared__stopped"), sched.__dict__.get("_best_loss"), env.__dict__.get("_vf_shared__curr_best_loss"),
                        sched.__dict__.get("_pending_action"), tuple(getattr(agent, "Q", ())), len(log),
                        tuple((t.finished, t.wait_desc) for t in ctl.threads), kind if kind != "line" else None, tid))
 
@@ -161,7 +177,7 @@ def run_protocol(cfg, prefix, mode="sync", horizon=6000):
         for si, nb in enumerate(cfg["shape"]):
             try:
                 with sched.session():
-                    if not isinstance(sched._agent_thread, vt.VThread):  # noqa: SLF001
+                    if len(ctl.threads) < 2:
                         raise HarnessBroken("start_session did not create a virtual thread: seam defeated")
                     for bi in range(nb):
                         if fault and fault["session"] == si and fault["batch"] == bi and fault["where"] == "before_get":
@@ -177,9 +193,8 @@ def run_protocol(cfg, prefix, mode="sync", horizon=6000):
                         batch += 1
             except InjectedFault as e:
                 obs.setdefault("faults", []).append(str(e))
-            agent_thread = sched._agent_thread  # noqa: SLF001
-            obs["sessions"].append({"q_action": len(sched._in_queue.items), "q_outcome": len(sched._out_queue.items),  # noqa: SLF001
-                                    "thread_alive": bool(agent_thread is not None and agent_thread.is_alive())})
+            qa, qo = queue_sizes()
+            obs["sessions"].append({"q_action": qa, "q_outcome": qo, "thread_alive": bool(vt.live_threads())})
     except vt.Abort as e:
         obs["abort"] = str(e)
     except HarnessBroken:
@@ -204,7 +219,7 @@ def run_protocol(cfg, prefix, mode="sync", horizon=6000):
     if obs["abort"] and obs["abort"].startswith("watchdog"):
         raise HarnessBroken(obs["abort"])
     obs["n_samplers"] = len(sched.samplers)
-    obs["halton_id"] = sched._halton_sampler_id  # noqa: SLF001
+    obs["halton_id"] = halton_index(sched)
     obs["final_Q"] = [float(x) for x in getattr(agent, "Q", [])]
     return ctl, obs
 
@@ -324,6 +339,7 @@ def run_calibrator(cfg, prefix, mode="sync", horizon=40000):
     install()
     log = []
     obs = {"samplers": [], "sessions": [], "error": None, "abort": None, "leaked": [], "thread_exc": None, "log": log, "losses": []}
+    vt.reset_registry()
     with quiet():
         samplers = make_samplers(cfg["samplers"])
         n = len(samplers) + (0 if any(type(s) is HaltonSampler for s in samplers) else 1)
@@ -340,9 +356,8 @@ def run_calibrator(cfg, prefix, mode="sync", horizon=40000):
             for nb in cfg["shape"]:
                 with quiet():
                     cal.calibrate(nb)
-                t = sched._agent_thread  # noqa: SLF001
-                obs["sessions"].append({"q_action": len(sched._in_queue.items), "q_outcome": len(sched._out_queue.items),  # noqa: SLF001
-                                        "thread_alive": bool(t is not None and t.is_alive())})
+                qa, qo = queue_sizes()
+                obs["sessions"].append({"q_action": qa, "q_outcome": qo, "thread_alive": bool(vt.live_threads())})
 
     ctl, _, exc, leaked = controlled(go, prefix, mode=mode, horizon=horizon)
     if exc is not None:
@@ -358,7 +373,7 @@ def run_calibrator(cfg, prefix, mode="sync", horizon=40000):
     b = np.asarray(cal.batch_num_samp)
     obs["losses"] = [float(np.min(cal.losses_samp[b == k])) for k in range(cal.current_batch_index)]
     obs["n_samplers"] = len(sched.samplers)
-    obs["halton_id"] = sched._halton_sampler_id  # noqa: SLF001
+    obs["halton_id"] = halton_index(sched)
     obs["final_Q"] = [float(x) for x in getattr(agent, "Q", [])]
     if obs["abort"] == "stop":
         obs["abort"] = None
